@@ -1040,53 +1040,148 @@ def py_test(t: list, attrs: dict) -> bool:
     return py_test(t[1], attrs) or py_test(t[2], attrs)
 
 
-def run_alt_tests(ctx: Ctx, drv: Optional[Driver], n_tables: int) -> None:
+ALT_POOL = ['A0', 'A1', 'A2', 'A3', 'B0', 'error', 'anyType']      # indices = type ids in the model queries
+ALT_CONTENTS = [None, 'pA1', 'pA2', 'pA3', 'q']
+
+
+def alt_valid_for(ty: str, child: Optional[str]) -> bool:
+    """validity of the content variant for the governing type (independent reading of the fixed types)"""
+    if ty == 'error':
+        return False
+    if ty == 'anyType':
+        return True
+    if ty == 'A0':
+        return child is None
+    if ty == 'B0':
+        return child == 'q'
+    return child == 'p' + ty
+
+
+def gen_alt_table(rng, pool: list[str], declared: str) -> list:
+    """alternatives whose target is drawn from the whole pool (declared type, derived types, xs:error, for an
+    xs:anyType element also an unrelated type) AT EVERY POSITION, with overlapping tests (broad tests, repeated
+    tests) and an optional default alternative"""
+    n = rng.randint(2, 5)
+    table = []
+    prev = None
+    for i in range(n):
+        r = rng.random()
+        if prev is not None and r < 0.2:
+            t = prev                                   # the same test again: shadowed by first match
+        elif r < 0.45:
+            t = rng.choice([['has', 'k'], ['has', 'j'], ['not', ['eq', 'k', 'c']], ['or', ['has', 'k'], ['has', 'j']],
+                            ['not', ['has', 'j']]])     # broad tests: several alternatives hold at once
+        else:
+            t = gen_test(rng)
+        prev = t
+        ty = declared if rng.random() < 0.3 else rng.choice(pool)
+        table.append([t, ty])
+    if rng.random() < 0.5:
+        table.append([None, declared if rng.random() < 0.3 else rng.choice(pool)])
+    return table
+
+
+def run_alt_tests(ctx: Ctx, drv: Optional[Driver], n_tables: int, tables: Optional[list] = None) -> None:
+    """XSD 1.1 type alternatives end to end: selected type AND validity of every content variant, own and
+    inherited attributes, against the model's first-match selection and an independent reading"""
     import xmlschema
-    types = ['A0', 'A1', 'A2', 'A3']
     queries, pend = [], []
     body = ''.join(
         f'<xs:complexType name="{n}"><xs:complexContent><xs:extension base="t:A0"><xs:sequence>'
         f'<xs:element name="p{n}" type="xs:int"/></xs:sequence></xs:extension></xs:complexContent></xs:complexType>'
-        for n in types[1:])
-    for _ in range(n_tables):
-        table = [[gen_test(ctx.rng), ctx.rng.choice(types[1:])] for _ in range(ctx.rng.randint(1, 4))]
-        if ctx.rng.random() < 0.4:
-            table.append([None, ctx.rng.choice(types[1:])])
-        alts = ''.join('<xs:alternative %stype="t:%s"/>' % (
-            ('test="%s" ' % render_test(t)) if t is not None else '', ty) for t, ty in table)
+        for n in ('A1', 'A2', 'A3'))
+
+    def tq(ty: str) -> str:
+        return 'xs:' + ty if ty in ('error', 'anyType') else 't:' + ty
+
+    def alts_xml(table: list) -> str:
+        return ''.join('<xs:alternative %stype="%s"/>' % (
+            ('test="%s" ' % render_test(t)) if t is not None else '', tq(ty)) for t, ty in table)
+    if tables is None:
+        tables = [(gen_alt_table(ctx.rng, ['A0', 'A1', 'A2', 'A3', 'error'], 'A0'),
+                   # declared xs:anyType: any type is legal, B0 is unrelated to the others
+                   gen_alt_table(ctx.rng, ['A0', 'A1', 'B0', 'error'], 'B0')) for _ in range(n_tables)]
+    for table_e, table_f in tables:
         xsd = (f'<xs:schema xmlns:xs="{XSD}" targetNamespace="{T}" xmlns:t="{T}" elementFormDefault="qualified">'
                f'<xs:complexType name="A0"><xs:sequence/><xs:attribute name="k"/><xs:attribute name="j"/>'
-               f'</xs:complexType>{body}<xs:element name="e" type="t:A0">{alts}</xs:element></xs:schema>')
-        schema = xmlschema.XMLSchema11(xsd)
-        xe = schema.elements['e']
-        for kv in (None, 'a', 'b', 'c'):
-            for jv in (None, 'a', 'b'):
-                attrs = {a: v for a, v in (('k', kv), ('j', jv)) if v is not None}
-                el = ET.Element('{%s}e' % T, dict(attrs))
-                real_ty = xe.get_alternative_type(el).local_name
-                want_ty = next((ty for t, ty in table if t is None or py_test(t, attrs)), 'A0')
-                case = {'v': '1.1', 'alt_tests': table, 'attrs': attrs}
-                if want_ty != 'A0':
-                    ET.SubElement(el, '{%s}p%s' % (T, want_ty)).text = '1'
-                valid = schema.is_valid(el, namespaces=NS)
-                if real_ty != want_ty or not valid:
-                    ctx.failure('governing type is not that of the first alternative whose test holds', case,
-                                {'selected': real_ty, 'first_matching': want_ty, 'valid_for_it': valid,
-                                 'tests': [render_test(t) if t else None for t, _ in table]})
-                ctx.case(case, True, tag='1.1/alternative-tests')
-                ctx.count('alt-selected:' + ('default' if real_ty == 'A0' else 'alternative'))
-                queries.append({'op': 'altT', 'attrs': [[a, v] for a, v in attrs.items()],
-                                'alts': [[t, types.index(ty)] for t, ty in table], 'dflt': 0})
-                pend.append((case, real_ty))
+               f'</xs:complexType>{body}'
+               f'<xs:complexType name="B0"><xs:sequence><xs:element name="q" type="xs:int"/></xs:sequence>'
+               f'<xs:attribute name="k"/><xs:attribute name="j"/></xs:complexType>'
+               f'<xs:element name="e" type="t:A0">{alts_xml(table_e)}</xs:element>'
+               f'<xs:element name="f" type="xs:anyType">{alts_xml(table_f)}</xs:element>'
+               f'<xs:element name="r"><xs:complexType><xs:sequence><xs:element ref="t:e" minOccurs="0"/>'
+               f'<xs:element ref="t:f" minOccurs="0"/></xs:sequence><xs:attribute name="k" inheritable="true"/>'
+               f'</xs:complexType></xs:element></xs:schema>')
+        try:
+            schema = xmlschema.XMLSchema11(xsd)
+        except xmlschema.XMLSchemaException as ex:
+            ctx.failure('generated alternative table refused by the library',
+                        {'v': '1.1', 'alt_tests': table_e, 'alt_tests_f': table_f}, {'message': str(ex)[:300]})
+            continue
+        for ename, declared, table in (('e', 'A0', table_e), ('f', 'anyType', table_f)):
+            xe = schema.elements[ename]
+            if any(ty == declared for _, ty in table[:-1]):
+                ctx.count('alt-table:declared-type-in-non-last-position')
+            for inh in (None, 'a', 'b'):
+                for kv in (None, 'a', 'b', 'c'):
+                    for jv in (None, 'a', 'b'):
+                        own = {a: v for a, v in (('k', kv), ('j', jv)) if v is not None}
+                        merged = dict({'k': inh} if inh else {}, **own)
+                        # independent reading: first alternative that holds; with inherited attributes the
+                        # instance is judged only while own and inherited views agree on every test met
+                        want_ty, judged, nhold = declared, True, 0
+                        for t, ty in table:
+                            ho = t is None or py_test(t, own)
+                            hm = t is None or py_test(t, merged)
+                            if ho != hm:
+                                judged = False
+                                break
+                            if ho:
+                                want_ty = ty
+                                break
+                        nhold = sum(1 for t, _ in table if t is None or py_test(t, merged))
+                        if nhold > 1:
+                            ctx.count('alt-instance:several-alternatives-hold')
+                        el = ET.Element('{%s}%s' % (T, ename), dict(own))
+                        real_ty = xe.get_alternative_type(el, {'k': inh} if inh else None).local_name
+                        case = {'v': '1.1', 'alt_tests': table, 'element': ename, 'declared': declared, 'attrs': own,
+                                'inherited': {'k': inh} if inh else {}}
+                        valid = {}
+                        for child in ALT_CONTENTS:
+                            root = ET.Element('{%s}r' % T, {'k': inh} if inh else {})
+                            kid = ET.SubElement(root, '{%s}%s' % (T, ename), dict(own))
+                            if child:
+                                ET.SubElement(kid, '{%s}%s' % (T, child)).text = '1'
+                            valid[child or ''] = schema.is_valid(root, namespaces=NS)
+                        if judged:
+                            wantv = {c or '': alt_valid_for(want_ty, c) for c in ALT_CONTENTS}
+                            if real_ty != want_ty or valid != wantv:
+                                ctx.failure('governing type is not that of the first alternative whose test holds '
+                                            '(selected type / validity of the content variants)', case,
+                                            {'selected': real_ty, 'first_matching': want_ty, 'valid': valid,
+                                             'expected_valid': wantv,
+                                             'tests': [render_test(t) if t else None for t, _ in table]})
+                        else:
+                            ctx.count('alt-instance:not-judged(own/inherited views differ)')
+                        ctx.case(case, True, tag='1.1/alternative-tests')
+                        ctx.count('alt-selected:' + ('declared' if real_ty == declared else real_ty))
+                        queries.append({'op': 'altT', 'attrs': [[a, v] for a, v in own.items()],
+                                        'inh': [['k', inh]] if inh else [],
+                                        'alts': [[t, ALT_POOL.index(ty)] for t, ty in table],
+                                        'dflt': ALT_POOL.index(declared)})
+                        pend.append((case, real_ty, valid))
     if drv is not None and queries:
         ans = drv.query([{'types': [], 'elems': [], 'contentOk': [], 'fixedOk': [], 'queries': queries}])[0]
         if 'err' in ans:
             ctx.mismatch('driver error', {'alt_tests': True}, None, ans)
             return
-        for (case, real_ty), m in zip(pend, ans['res']):
+        for (case, real_ty, valid), m in zip(pend, ans['res']):
             ctx.traces += 1
-            if types[m['ty']] != real_ty:
-                ctx.mismatch('type alternative selection (evaluated tests)', case, real_ty, types[m['ty']])
+            sel = ALT_POOL[m['ty']]
+            if sel != real_ty:
+                ctx.mismatch('type alternative selection (evaluated tests)', case, real_ty, sel)
+            elif valid != {c or '': alt_valid_for(sel, c) for c in ALT_CONTENTS}:
+                ctx.mismatch('validity for the type selected by the model', case, valid, sel)
 
 
 # ---------------------------------------------------------------- entry points
@@ -1183,7 +1278,11 @@ def replay(ctx: Ctx, obj: dict) -> int:
     print(json.dumps({k: v for k, v in obj.items() if k != 'input'}, indent=1)[:3000])
     case = obj.get('input')
     if not case or 'schema' not in case:
-        if case and 'alternatives' in case:
+        drv = Driver('drv_c07') if (VERIF / 'lean/.lake/build/bin/drv_c07').exists() else None
+        if case and 'alt_tests' in case:
+            tb = case['alt_tests']
+            run_alt_tests(ctx, drv, 0, [(tb, []) if case.get('element') == 'e' else ([], tb)])
+        elif case and 'alternatives' in case:
             run_alternatives(ctx, None)
         else:
             return 0
